@@ -478,6 +478,12 @@ def run_region_cached(args):
                     if th[j][0] == "read" and th[j][1] == kk[1]:
                         order.append(z3.ULT(F.res[base + i], F.res[base + j]))
         base += len(th)
+    # the model identifies a payload with its generation (and so does the code's staleness test): generations must be unique
+    sets = [o for o, kk in enumerate(flat) if kk[0] == "set"]
+    dup = [z3.And(F.status[o] == E.BV8(2), F.res[o] == E.BV8(init["latest"])) for o in sets]
+    dup += [z3.And(F.status[a] == E.BV8(2), F.status[b] == E.BV8(2), F.res[a] == F.res[b]) for i_, a in enumerate(sets) for b in sets[i_ + 1:]]
+    if dup:
+        v["two different values carry the same generation (the staleness test compares generations only, so a stale copy can pass for the latest)"] = z3.Or(*dup)
     if own:
         v["a pinned thread did not observe its own write although nobody else wrote"] = z3.Or(*own)
     if order:
